@@ -169,10 +169,10 @@ class RegexV:
 
 
 class MatchV:
-    __slots__ = ('lang', 'subject', 'alt', 'maybe_none')
+    __slots__ = ('lang', 'subject', 'alt', 'maybe_none', 'nl')
 
-    def __init__(self, lang, subject, alt=None, maybe_none=True):
-        self.lang, self.subject, self.alt, self.maybe_none = lang, subject, alt, maybe_none
+    def __init__(self, lang, subject, alt=None, maybe_none=True, nl=False):
+        self.lang, self.subject, self.alt, self.maybe_none, self.nl = lang, subject, alt, maybe_none, nl
 
 
 class RegDB:
